@@ -59,15 +59,42 @@ theorem load_serialize_exact (fl : Flags) (lib : List Cls) (sg : SGraph) (roots 
 
 /-- **Identifiers equal to the originals when recomputed** (with M1): `fromParameters` on the
     definition list of `root` returns the object of `root`, and the full identifier computed on the
-    loaded graph is the original one — for every hash function. -/
+    loaded graph is the original one — for every hash function.
+    `DefaultsNeeded sg.g [root]` (Proofs/SerialLoad.lean): the configurations occurring in the declared defaults
+    of the needed configurations are themselves written.  It is vacuous when no declared default contains a
+    configuration object (`DefaultsNeeded.of_no_refs`).  It is a limitation of the *model of the reloaded graph*
+    (`toGraph` puts an empty node at every id that was not loaded), not of the real code, where the default
+    objects live in the class library and are the same before and after the reload: since identifiers now
+    compare values with the default objects, the recomputed identifier depends on them. -/
 theorem reload_identifier {D : Type} (hc : HC D) (fl : Flags) (lib : List Cls) (sg : SGraph) (root : Nat)
     (hwf : WF sg.g) (hr : root < sg.g.size)
     (hok : ∀ n, Needed sg.g [root] n → NodeOk lib sg n)
     (hm : (fl.metaWriteAll = true ∧ fl.metaReadAll = true) ∨ ∀ n, Needed sg.g [root] n → (sg.g.node n).mflag ≠ some false)
-    (hi : fl.initRestored = true ∨ ∀ n, Needed sg.g [root] n → (sg.g.node n).initTasks = []) :
+    (hi : fl.initRestored = true ∨ ∀ n, Needed sg.g [root] n → (sg.g.node n).initTasks = [])
+    (hdn : DefaultsNeeded sg.g [root]) :
     ∃ L, fromParameters fl lib (serialize fl lib sg [root]) = .ok (L, root) ∧
       fullId hc (toGraph L sg.g.size) root = fullId hc sg.g root :=
-  reload_fullId hc fl lib sg root hwf hr hok hm hi
+  reload_fullId hc fl lib sg root hwf hr hok hm hi hdn
+
+/-- **… also when the default objects are kept rather than written** (what the real code does: class-level
+    default objects are not serialised, they live in the class library): for every graph `g'` that holds the loaded
+    object at every needed id and — up to `sealed` — the original node on a set `S` containing the needed
+    configurations and closed under references and declared defaults (e.g. the default objects and what they
+    refer to), the full identifier recomputed on `g'` is the original one. -/
+theorem reload_identifier_defaults_kept {D : Type} (hc : HC D) (fl : Flags) (lib : List Cls) (sg : SGraph) (root : Nat)
+    (hwf : WF sg.g) (hr : root < sg.g.size)
+    (hok : ∀ n, Needed sg.g [root] n → NodeOk lib sg n)
+    (hm : (fl.metaWriteAll = true ∧ fl.metaReadAll = true) ∨ ∀ n, Needed sg.g [root] n → (sg.g.node n).mflag ≠ some false)
+    (hi : fl.initRestored = true ∨ ∀ n, Needed sg.g [root] n → (sg.g.node n).initTasks = [])
+    (S : Nat → Prop) (hS : ∀ n, Needed sg.g [root] n → S n)
+    (hclosed : ∀ n, S n → ∀ m ∈ succAll sg.g n, S m)
+    (hdflt : ∀ n, S n → ∀ m ∈ nodeDfltRefs (sg.g.node n), S m) :
+    ∃ L, fromParameters fl lib (serialize fl lib sg [root]) = .ok (L, root) ∧
+      ∀ g' : Graph, g'.size = sg.g.size →
+        (∀ n, Needed sg.g [root] n → g'.node n = (toGraph L sg.g.size).node n) →
+        (∀ n, S n → ¬ Needed sg.g [root] n → NodeSame (sg.g.node n) (g'.node n)) →
+        fullId hc g' root = fullId hc sg.g root :=
+  reload_fullId_defaults_kept hc fl lib sg root hwf hr hok hm hi S hS hclosed hdflt
 
 /-- **State dictionaries**: `from_state_dict (state_dict v)` gives back the structure `v` (same
     references) together with the loaded objects of `load_serialize_iso`. -/
@@ -105,7 +132,8 @@ theorem second_generation_exact {D : Type} (hc : HC D) (fl : Flags) (lib : List 
     (hwf : WF sg.g) (hr : root < sg.g.size)
     (hok : ∀ n, Needed sg.g [root] n → NodeOk lib sg n)
     (hm : (fl.metaWriteAll = true ∧ fl.metaReadAll = true) ∨ ∀ n, Needed sg.g [root] n → (sg.g.node n).mflag ≠ some false)
-    (hi : fl.initRestored = true ∨ ∀ n, Needed sg.g [root] n → (sg.g.node n).initTasks = []) :
+    (hi : fl.initRestored = true ∨ ∀ n, Needed sg.g [root] n → (sg.g.node n).initTasks = [])
+    (hdn : DefaultsNeeded sg.g [root]) :
     (∃ L1 defs2 L2, reloadTwice fl lib sg [root] = .ok (L1, defs2, L2) ∧
       (∀ n, n ∈ L2.map (·.1) ↔ Needed sg.g [root] n) ∧
       ∀ n, Needed sg.g [root] n →
@@ -113,7 +141,7 @@ theorem second_generation_exact {D : Type} (hc : HC D) (fl : Flags) (lib : List 
     (∃ L1 defs2 L2, reloadTwice fl lib sg [root] = .ok (L1, defs2, L2) ∧
       fullId hc (toGraph L2 sg.g.size) root = fullId hc sg.g root) := by
   have hroots : ∀ r ∈ [root], r < sg.g.size := by intro r h; simp at h; subst h; exact hr
-  exact ⟨reloadTwice_exact fl lib sg [root] hwf hroots hok hm hi, reloadTwice_fullId hc fl lib sg root hwf hr hok hm hi⟩
+  exact ⟨reloadTwice_exact fl lib sg [root] hwf hroots hok hm hi, reloadTwice_fullId hc fl lib sg root hwf hr hok hm hi hdn⟩
 
 /-- **Every value survives the JSON encoding** (all type constructors, any nesting): decoding the
     encoding of a value gives the value back, data paths included. -/
@@ -173,6 +201,50 @@ theorem init_tasks_witness :
     reloadedId oldFlags (wg none [2] (.dict [] [])) ≠ some (fullId toyHC (wg none [2] (.dict [] [])).g 0) ∧
     reloadedId newFlags (wg none [2] (.dict [] [])) = some (fullId toyHC (wg none [2] (.dict [] [])).g 0) := by
   decide
+
+/-! configuration-valued defaults: `class B(Config): k: Param[int]`, `class A(Config): x: Param[B] = B(k=1)`.
+    Node 1 is the default object of `A.x`; node 0 is `A()` holding the clone 2 (`dg 2`), or holding the default object
+    itself (`dg 1`). -/
+def clsA : Cls := { name := [65], typeId := [97],
+                    args := [{ name := [120], required := false, default := some (.ref 1), value := .ref 1 }] }
+def clsB : Cls := { name := [66], typeId := [98], args := [{ name := [107], value := .none }] }
+def dlib : List Cls := [clsA, clsB]
+def dg (v : Nat) : SGraph :=
+  { g := { nodes := [ { typeId := [97], args := [{ name := [120], required := false, default := some (.ref 1), value := .ref v }] },
+                      { typeId := [98], args := [{ name := [107], value := .int 1 }] },
+                      { typeId := [98], args := [{ name := [107], value := .int 1 }] } ] },
+    cname := [[65], [66], [66]] }
+def reloadedIdD (sg : SGraph) : Option Nat :=
+  match fromParameters newFlags dlib (serialize newFlags dlib sg [0]) with
+  | .ok (l, r) => some (fullId toyHC (toGraph l sg.g.size) r)
+  | .error _ => none
+
+/-- `DefaultsNeeded` is needed *in the model of the reloaded graph*: the default object (node 1) of `A()` is not
+    written, `toGraph` leaves an empty node there, the value no longer has the identifier of "the default" and the
+    recomputed identifier differs; when the default object is written (here because it is also the value) the
+    identifier is the original one.  (In the real code the default object is the class attribute, untouched by the
+    reload: `reload_identifier_defaults_kept`.) -/
+theorem defaults_needed_witness :
+    (serialOrder (dg 2).g [0] = [2, 0]) ∧ reloadedIdD (dg 2) ≠ some (fullId toyHC (dg 2).g 0) ∧
+    (serialOrder (dg 1).g [0] = [1, 0]) ∧ reloadedIdD (dg 1) = some (fullId toyHC (dg 1).g 0) := by
+  decide
+
+example : DefaultsNeeded (dg 1).g [0] := by
+  intro n hn m hm
+  obtain ⟨r, hr, hreach⟩ := hn
+  simp only [List.mem_singleton] at hr
+  subst hr
+  have hm1 : m = 1 := by
+    have hlt : n = 0 ∨ n = 1 ∨ n = 2 ∨ 3 ≤ n := by omega
+    rcases hlt with h | h | h | h
+    · subst h; simpa [dg, Graph.node, nodeDfltRefs, dfltRefs, cfgRefs] using hm
+    · subst h; simp [dg, Graph.node, nodeDfltRefs, dfltRefs] at hm
+    · subst h; simp [dg, Graph.node, nodeDfltRefs, dfltRefs] at hm
+    · have : (dg 1).g.node n = { typeId := [], args := [] } := by
+        simp [Graph.node, dg, List.getD_eq_getElem?_getD, List.getElem?_eq_none (show ([_, _, _] : List Node).length ≤ n from h)]
+      simp [this, nodeDfltRefs] at hm
+  subst hm1
+  exact ⟨0, List.mem_singleton.2 rfl, .step (b := 1) (by decide) (.refl 1)⟩
 
 /-- F9: a dict value with the key `"type"` cannot be loaded (`Unhandled type`), or comes back as
     another kind of value (`{"type": "path", "value": "x"}` becomes a path). -/
